@@ -8,6 +8,16 @@ type WorkingMatch<'src> =
     (InstructionMatch, syntax::Walker<'src>);
 
 
+/// The nested ruledefs currently being matched, each as
+/// (ruledef index, source position, cursor limit).
+/// 
+/// Entering the same nested ruledef again in the very same state
+/// (as a left-recursive rule like `{x: r} => ...` inside `r` does)
+/// could only repeat itself until the stack overflows,
+/// so that branch is cut off instead.
+type ActiveNestedRuledefs = Vec<(usize, usize, usize)>;
+
+
 pub type InstructionMatches = Vec<InstructionMatch>;
 
 
@@ -413,7 +423,8 @@ pub fn match_instr(
     {
         let ruledef_matches = match_with_ruledef_map(
             defs,
-            walker);
+            walker,
+            &mut ActiveNestedRuledefs::new());
 
         working_matches.extend(ruledef_matches);
     }
@@ -434,7 +445,8 @@ pub fn match_instr(
                 defs,
                 ruledef_ref,
                 &mut walker,
-                true);
+                true,
+                &mut ActiveNestedRuledefs::new());
 
             working_matches.extend(ruledef_matches);
         }
@@ -495,7 +507,8 @@ pub fn match_instr(
 
 fn match_with_ruledef_map<'src>(
     defs: &asm::ItemDefs,
-    walker: syntax::Walker<'src>)
+    walker: syntax::Walker<'src>,
+    active: &mut ActiveNestedRuledefs)
     -> WorkingMatches<'src>
 {
     let mut matches = WorkingMatches::new();
@@ -514,7 +527,8 @@ fn match_with_ruledef_map<'src>(
             entry.rule_ref,
             rule,
             walker.clone(),
-            true);
+            true,
+            active);
             
         matches.extend(rule_matches);
     }
@@ -527,7 +541,8 @@ fn match_with_ruledef<'src>(
     defs: &asm::ItemDefs,
     ruledef_ref: util::ItemRef<asm::Ruledef>,
     walker: &mut syntax::Walker<'src>,
-    needs_consume_all_tokens: bool)
+    needs_consume_all_tokens: bool,
+    active: &mut ActiveNestedRuledefs)
     -> WorkingMatches<'src>
 {
     let mut matches = WorkingMatches::new();
@@ -544,7 +559,8 @@ fn match_with_ruledef<'src>(
             rule_ref,
             rule,
             walker.clone(),
-            needs_consume_all_tokens);
+            needs_consume_all_tokens,
+            active);
             
         matches.extend(rule_matches);
     }
@@ -559,7 +575,8 @@ fn begin_match_with_rule<'src>(
     rule_ref: util::ItemRef<asm::Rule>,
     rule: &asm::Rule,
     mut walker: syntax::Walker<'src>,
-    needs_consume_all_tokens: bool)
+    needs_consume_all_tokens: bool,
+    active: &mut ActiveNestedRuledefs)
     -> WorkingMatches<'src>
 {
     match_with_rule(
@@ -568,6 +585,7 @@ fn begin_match_with_rule<'src>(
         &mut walker,
         needs_consume_all_tokens,
         0,
+        active,
         &mut InstructionMatch {
             ruledef_ref,
             rule_ref,
@@ -586,6 +604,7 @@ fn match_with_rule<'src>(
     walker: &mut syntax::Walker<'src>,
     needs_consume_all_tokens: bool,
     at_pattern_part: usize,
+    active: &mut ActiveNestedRuledefs,
     match_so_far: &mut InstructionMatch)
     -> WorkingMatches<'src>
 {
@@ -636,6 +655,7 @@ fn match_with_rule<'src>(
                                     needs_consume_all_tokens,
                                     part_index,
                                     enable_lookahead,
+                                    active,
                                     match_so_far.clone()));
                         }
 
@@ -658,6 +678,7 @@ fn match_with_rule<'src>(
                                     needs_consume_all_tokens,
                                     part_index,
                                     enable_lookahead,
+                                    active,
                                     match_so_far.clone()));
                         }
 
@@ -686,6 +707,7 @@ fn match_with_expr<'src>(
     needs_consume_all_tokens: bool,
     at_pattern_part: usize,
     enable_lookahead: bool,
+    active: &mut ActiveNestedRuledefs,
     mut match_so_far: InstructionMatch)
     -> WorkingMatches<'src>
 {
@@ -731,6 +753,7 @@ fn match_with_expr<'src>(
         &mut walker,
         needs_consume_all_tokens,
         at_pattern_part + 1,
+        active,
         &mut match_so_far)
 }
 
@@ -743,6 +766,7 @@ fn match_with_nested_ruledef<'src>(
     needs_consume_all_tokens: bool,
     at_pattern_part: usize,
     enable_lookahead: bool,
+    active: &mut ActiveNestedRuledefs,
     match_so_far: InstructionMatch)
     -> WorkingMatches<'src>
 {
@@ -755,11 +779,30 @@ fn match_with_nested_ruledef<'src>(
             at_pattern_part,
             enable_lookahead,
             &mut walker,
-            |walker| match_with_ruledef(
-                defs,
-                nested_ruledef_ref,
-                walker,
-                false))
+            |walker|
+            {
+                let state = (
+                    nested_ruledef_ref.0,
+                    walker.next_useful_index(),
+                    walker.get_cursor_limit());
+
+                if active.contains(&state)
+                {
+                    return vec![];
+                }
+
+                active.push(state);
+
+                let nested_matches = match_with_ruledef(
+                    defs,
+                    nested_ruledef_ref,
+                    walker,
+                    false,
+                    active);
+
+                active.pop();
+                nested_matches
+            })
         else { return vec![] };
 
     
@@ -796,6 +839,7 @@ fn match_with_nested_ruledef<'src>(
             &mut walker,
             needs_consume_all_tokens,
             at_pattern_part + 1,
+            active,
             &mut match_so_far);
             
         matches.extend(resumed_matches);
